@@ -29,7 +29,9 @@ impl Parser {
         }
 
         if !self.parsed_numbers.is_empty() && self.parsed_numbers[0] == 4 {
-            for a in OSC_PALETTE.captures_iter(&self.parse_string) {
+            // match behind the command number, otherwise the "4" is taken as the index of a pair that has none
+            let pairs = self.parse_string.find(';').map_or("", |p| &self.parse_string[p..]);
+            for a in OSC_PALETTE.captures_iter(pairs) {
                 let Some(color) = a.get(1) else {
                     log::error!("Missing color index in OSC palette sequence: {}", self.parse_string);
                     continue;
